@@ -9,7 +9,7 @@ INFO = {
             "(full integer/float/string alphabets for primitives, bounded products for composites; thorough: also every value the reference reads from an accepted string over S6^<=5); every T4 shape (context "
             "dependencies: length/count/condition/switch refs, Rebuild(len_), Default, Computed, Const, StopIf, _ / _root / _params) x "
             "keyword contexts x every value obtained from an accepted byte string over S6^<=4, also with each derived member "
-            "omitted. Oracle: parse(build(v)) matches the expected value structurally (derived members filled in), the whole "
+            "omitted; every non-seeking context-free T1/T2 term also as a member of a streaming (unsized) BitsSwapped / Bitwise region. Oracle: parse(build(v)) matches the expected value structurally (derived members filled in), the whole "
             "encoding is consumed. non-trivial = a value whose round trip was executed and compared; distinct = distinct (term, kw, value)",
     "bounds": {"quick": {"tiers": "T1,T2,T3,T4", "L_T4": 4, "L_ctxfree": 0}, "thorough": {"tiers": "T1..T5", "L_T4": 6, "L_ctxfree": 5}},
     "trusted_base": ["value domains and expected results in mc/gen.py:values()", "mc/ref.py is used ONLY as a domain filter "
@@ -23,6 +23,8 @@ DERIVED = ("Rebuild", "ConstB", "ConstV", "Computed", "Padding", "Check", "StopI
 
 def terms_for(tier):
     out = [(t, "T1") for t in G.tier1()] + [(t, "T2") for t in G.tier2()] + [(t, "T3") for t in G.tier3()] + [(t, "T4") for t in G.tier4()]
+    # every non-seeking context-free T1/T2 term also inside the streaming implementation of the bit/byte transforms
+    out += [(h, "TSt") for h in G.streaming_terms(2)]
     if tier == "thorough":
         out += [(t, "T5") for t in G.tier5()]
     return out
